@@ -134,16 +134,51 @@ def check_find_spec(ctx):
         if isinstance(st, ast.Assign) and any(isinstance(t, ast.Name) and t.id == mods_param for t in st.targets):
             v = st.value
             ok = isinstance(v, ast.List) and len(v.elts) == 1 and isinstance(v.elts[0], ast.Name) and v.elts[0].id == mods_param
-            if not ok:
+            # a plain copy / container conversion keeps exactly the caller's names
+            copy_ = (isinstance(v, ast.Call) and norm(v.func) in ("list", "tuple", "set", "frozenset", "sorted") and len(v.args) == 1 and not v.keywords
+                     and isinstance(v.args[0], ast.Name) and v.args[0].id == mods_param) or \
+                    (isinstance(v, (ast.List, ast.Tuple)) and len(v.elts) == 1 and isinstance(v.elts[0], ast.Starred) and norm(v.elts[0].value) == mods_param)
+            if ok:
+                ctx.ok("C11.1", inst.qualname, "a single name is wrapped into a one-element list; nothing else touches the list of names")
+            elif copy_:
+                ctx.ok("C11.1", inst.qualname, f"`{short(st, 50)}` copies the caller's names unchanged")
+            elif any(isinstance(x, (ast.ListComp, ast.GeneratorExp, ast.SetComp)) and (x.generators[0].ifs or norm(x.elt) != norm(x.generators[0].target)) for x in ast.walk(v)) \
+                    or any(isinstance(x, ast.Subscript) for x in ast.walk(v)):
                 ctx.bad("C11.1", inst, st, f"the configured names are transformed before they reach the finder (`{short(st, 70)}`): a name may be dropped, merged or "
                         "altered, so the set of instrumented modules is no longer 'exactly the named packages'")
             else:
-                ctx.ok("C11.1", inst.qualname, "a single name is wrapped into a one-element list; nothing else touches the list of names")
+                raise AnalysisError(f"C11.1: `{short(st, 70)}` re-binds the configured names; whether every name survives unchanged is not interpreted")
     fcalls = [c for c in m.calls_in(inst) if m.resolve_call(inst, c).kind == "class" and m.resolve_call(inst, c).target.name == "_JaxtypingFinder"]
     need(fcalls, "install_import_hook no longer builds a _JaxtypingFinder")
     for c in fcalls:
         if not (c.args and isinstance(c.args[0], ast.Name) and c.args[0].id == mods_param):
             ctx.bad("C11.1", inst, c, f"the finder is not given the caller's names (`{mods_param}`) but `{norm(c.args[0]) if c.args else '?'}`")
+    # the finder's names are never written once the hook is built -- unless the finder owns a private copy on every path:
+    # the list may be the caller's own object, shared with other hooks built from the same list
+    g_i = NoReturn(m).cfg(inst)
+    call_nodes = [n_ for n_ in g_i.live_nodes() if any(c_ is fc_ for c_ in node_calls(n_) for fc_ in fcalls)]
+    rebinds = [n_ for n_ in g_i.live_nodes() if n_.kind == "stmt" and isinstance(n_.ast, ast.Assign) and any(isinstance(t, ast.Name) and t.id == mods_param for t in n_.ast.targets)]
+    shared_possible = bool(call_nodes) and any(cn.id in g_i.reach_from(g_i.entry, avoid=lambda x: x in rebinds) for cn in call_nodes)
+    muts = []
+    for f_ in m.all_functions(include_typeguard=False):
+        if f_.module.short != "_import_hook" or (f_.cls is fc and f_.name == "__init__"):
+            continue
+        for x in walk_scope(f_.node):
+            if isinstance(x, ast.Call) and isinstance(x.func, ast.Attribute) and x.func.attr in ("clear", "append", "extend", "remove", "pop", "insert", "sort", "reverse", "__setitem__", "__delitem__") \
+                    and isinstance(x.func.value, ast.Attribute) and x.func.value.attr == "modules" and not norm(x.func.value.value).startswith("sys"):
+                muts.append((f_, x))
+            if isinstance(x, (ast.Assign, ast.AugAssign, ast.Delete)):
+                tg = x.targets if isinstance(x, (ast.Assign, ast.Delete)) else [x.target]
+                for t in tg:
+                    base = t.value if isinstance(t, ast.Subscript) else None
+                    if isinstance(base, ast.Attribute) and base.attr == "modules" and not norm(base.value).startswith("sys"):
+                        muts.append((f_, x))
+    for f_, x in muts:
+        if shared_possible:
+            ctx.bad("C11.1", f_, x, f"`{short(x, 50)}` changes the finder's list of names in place, and that list can be the caller's own object (install_import_hook hands it to the "
+                    "finder without copying on some path): every other hook built from the same list stops (or starts) instrumenting modules while it is installed")
+        else:
+            ctx.ok("C11.1", f_.qualname, f"`{short(x, 50)}` changes a list that the finder owns privately (always copied by install_import_hook)")
     finit = need(fc.methods.get("__init__"), "_JaxtypingFinder.__init__ not found")
     stores = {norm(t): norm(st.value) for st in walk_scope(finit.node) if isinstance(st, ast.Assign) for t in st.targets}
     if stores.get(f"{finit.params[0]}.modules") != finit.params[1]:
